@@ -757,6 +757,68 @@ def c08_pipelines(chk, tier):
     chk.cov["pipeline_scenarios"] = len(scns)
 
 
+def gen_c01_real(tier):
+    """communicate-style exchanges with real processes: the consumer of a pipeline leaves early, a command does not
+    read (all of) the input it is fed, outputs alternate between the streams above the pipe capacity"""
+    sizes = (1, 4096, 65536, 65537, 70000, 140000, 300000) if tier == "quick" else (1, 4095, 4096, 4097, 65535, 65536, 65537, 70000, 131072, 140000, 300000, 1000000)
+    out = []
+    q = 0
+    for term in ("capture", "communicate"):
+        for n in (2, 3):
+            for sz in sizes:
+                kids = [["write 1 %d" % sz, "exit 0"]] + [["streamcat <T>", "exit 0"]] * (n - 2) + [["readn 1", "exit 0"]]
+                out.append({"id": "c01r-%d" % q, "kind": "pipeline", "n": n, "term": term, "shape": "left", "stub": kids,
+                            "what": "producer of %d bytes | ... | consumer that reads 1 byte and leaves" % sz, "watchdog": 10})
+                q += 1
+        # a single command that is fed more than it reads
+        for sz in sizes:
+            for k in (0, 1, 5000):
+                if k > sz:
+                    continue
+                out.append({"id": "c01r-%d" % q, "kind": "handle", "n": 1, "term": term, "pstdin": "data", "data": b"d" * sz,
+                            "stub": [["readn %d" % k, "write 1 %d" % min(sz, 70000), "exit 0"]],
+                            "what": "input of %d bytes, the child reads %d, writes, exits" % (sz, k), "watchdog": 10})
+                q += 1
+        # both outputs above the pipe capacity, alternating, while input is pending
+        for order in ((1, 2), (2, 1)):
+            out.append({"id": "c01r-%d" % q, "kind": "handle", "n": 1, "term": term, "pstdin": "data", "data": b"d" * 200000,
+                        "stub": [["write %d 150000" % order[0], "write %d 150000" % order[1], "readeof", "write %d 70000" % order[0], "exit 0"]],
+                        "what": "child writes 150000 to %d, then to %d, then reads 200000 bytes of input, writes again" % order, "watchdog": 10})
+            q += 1
+    return out
+
+
+def c01_real(chk, tier, explicit=None):
+    """C01 on real processes: the exchange finishes whatever the children do with their ends -- in particular when a
+    pipeline's consumer leaves early (the producer must get SIGPIPE/EPIPE, which it does only if nobody else holds a
+    read end of the pipe between them)"""
+    tpls = explicit if explicit is not None else gen_c01_real(tier)
+    scns = [scenario_of(t) for t in tpls]
+    e2.run_scenarios(scns, "C01real")
+    n_ok = 0
+    for s in scns:
+        t = s["tpl"]
+        what = "%s %s: %s" % (t["id"], t["term"], t["what"])
+        if s.get("timed_out"):
+            chk.violation("C01: HANG: the exchange with real processes did not finish within %ss [%s]" % (s["timeout"], what), "real\n" + tpl_to_json(t))
+            continue
+        res = out_field(s, "term")
+        if s.get("rc") != 0 or res is None:
+            chk.violation("C01: the scenario process failed (rc=%s) [%s] %s" % (s.get("rc"), what, s.get("stderr", "")[-200:].replace("\n", " ")), "real\n" + tpl_to_json(t))
+            continue
+        if not (res.startswith("ok") or res.startswith("err io:32")):
+            chk.violation("C01: the exchange returned %s [%s]" % (res, what), "real\n" + tpl_to_json(t))
+            continue
+        ms = out_field(s, "term_ms")
+        if ms is not None and int(ms) > 5000:
+            chk.violation("C01: the exchange needed %s ms although every child had finished or closed its streams long before [%s]" % (ms, what), "real\n" + tpl_to_json(t))
+            continue
+        n_ok += 1
+    chk.cov["evaluations"] = chk.cov.get("evaluations", 0) + len(scns)
+    chk.cov["traces_validated_against_impl"] = chk.cov.get("traces_validated_against_impl", 0) + n_ok
+    chk.cov["real_process_exchanges"] = len(scns)
+
+
 def c08_replay(chk, text):
     t = tpl_from_json(text)
     s = scenario_of(t)
